@@ -149,3 +149,8 @@ CHECKS.update({
     "C15": ("6/C15", "9 outcome programs (success, two workers racing to stop, step failure without / after retries, @catch_error handler that recovers / fails itself, workflow timeout, cancel_handler at every quiescent point, cancel racing the timeout) on the real server stack over MemoryWorkflowStore and SqliteWorkflowStore x 0-2 transient failures of handler-record writes and of event-log writes at explorer-chosen attempts (inside the [0.5, 3] s backoff budget) x all schedules within the deviation bound incl. timer firings; every status written is logged (terminal never followed by running) and the final handler record is compared with how the engine's run task actually ended.",
             "Store faults are bounded to what _retry_store_write is documented to absorb (<= 2 consecutive); a store that keeps failing is outside the property. The idle-release timer never fires here (C26/C36). Fixes f78db87 and 7a6f378 repaired the two unretried store writes this check found.", ENGINE_TECH.replace("the real control loop", "the real server stack")),
 })
+
+CHECKS.update({
+    "C36": ("6/C36", "A workflow that stores state and waits for 1-2 external responses on (a) the in-process stack ServerRuntimeDecorator(IdleReleaseDecorator(PersistenceDecorator(BasicRuntime))) over MemoryWorkflowStore / SqliteWorkflowStore and (b) the DBOS idle-release stack - the real DBOSIdleReleaseDecorator + SqliteRunLifecycleLock (DB file) over the in-process runtime, lifecycle row never created (as shipped) / created by the harness - with idle_timeout in {0.5, 5, 60}; each response is sent at an explorer-chosen point once the run is idle (before the idle timer, in the same loop iteration, after the release; the clock may also advance without a timer coming due) x all interleavings of sends, idle-timer firings and step completions; in every quiescent state 'idle longer than idle_timeout => released, no live control loop, handler marked idle', release never before idle_timeout elapsed and never with work pending, and finally every send succeeded and the run completed with the state stored before waiting plus all responses.",
+            "DBOS half: DBOSRuntime and the dbos library are not executed (two-function stand-in bound to the in-process runtime); one known finding (no lifecycle row is ever created, so DBOS runs are never released); fix recorded for the tick-log hole left by _do_resume.", ENGINE_TECH.replace("the real control loop", "the real server / idle-release stacks")),
+})
